@@ -23,7 +23,7 @@ from pathlib import Path
 from ..loader import NOFOLD, AnalysisError, EnumMember, Repo
 from ..report import Check
 from ..sereval import BV, Blob, Bytes, Lin, Obj, EnumV, ListV, SerEval, Unsupported
-from .apci_common import M, class_fields, compare_with_input, dispatch_masks, is_stub, service_classes
+from .apci_common import M, class_fields, compare_with_input, dispatch_masks, is_stub, service_classes, encoders_return_fresh_buffers
 
 ORACLE = Path(__file__).resolve().parent.parent.parent / "oracles" / "reserved_bits.json"
 
@@ -59,10 +59,13 @@ def run(chk: Check, repo: Repo) -> None:
     oracle = json.loads(ORACLE.read_text())["reserved"]
     masks = dispatch_masks(repo)
     classes = service_classes(repo)
+    stale = encoders_return_fresh_buffers(chk, repo, classes)
     chk.floor("APCI service classes", len(classes), 80)
     n_paths = n_cls = 0
     table: dict[str, list] = {}
     for c in classes:
+        if c.name in stale:
+            continue  # reported by encoder-returns-a-buffer-of-its-own
         if is_stub(repo, c):
             chk.ob("not-implemented-stub", f"{c.module.relpath}:{c.node.lineno}:{c.name}", True, f"{c.name}: from_knx / to_knx are not-implemented stubs (nothing to round-trip)", key=f"stub|{c.name}")
             continue
